@@ -411,16 +411,11 @@ impl<T: SharedResource + Add<Output = T> + Sub<Output = T>> SharedResourceState<
         let mut empty_resources = vec![None; route_ctx.route().tour.total()];
 
         route_ctx.state().get_reload_intervals().cloned().unwrap_or_default().into_iter().for_each(
-            |(start_idx, end_idx)| {
+            |(start_idx, _)| {
+                // NOTE: an interval without jobs yet has to be protected too: otherwise any demand is accepted there
+                // while the route is modified (e.g. next sub-jobs of a multi job evaluated on a route copy)
                 let activity = get_activity_by_idx(route_ctx.route(), start_idx);
-                let has_resource_demand = (self.resource_capacity_fn)(activity).is_some_and(|(_, _)| {
-                    (start_idx..=end_idx)
-                        .filter_map(|idx| route_ctx.route().tour.get(idx))
-                        .filter_map(|activity| activity.job.as_ref())
-                        .any(|job| (self.resource_demand_fn)(job).is_some())
-                });
-
-                if has_resource_demand {
+                if (self.resource_capacity_fn)(activity).is_some() {
                     empty_resources[start_idx] = Some(T::default());
                 }
             },
